@@ -356,6 +356,23 @@ def r8_bottom_up(cx):
         cx.unknown(lp, "iteration order of the line loop not recognised")
 
 
+def r8b_cleaner_bottom_up(cx):
+    """The host-side allow-list stage (AllowFilter.parse_line) consumes budgets in the order
+    Cleaner.clean_content feeds it lines: that must be bottom-up as well."""
+    cx.rule("C07.R8", "post-filter scans bottom-up, keeps at most one copy of each line, and restores the original order", floor=3)
+    cm = cx.repo.module("insights.cleaner")
+    cc = cm.func("Cleaner.clean_content", "C07.R8")
+    lines = params(cc)[1]
+    loops = [s for s in cc.body if isinstance(s, ast.For) and "range(" in U(s.iter)]
+    if not loops:
+        cx.unknown(cc, "no index loop over the lines in clean_content")
+        return
+    it = U(loops[0].iter)
+    cx.require(it in ("range(len(%s) - 1, -1, -1)" % lines, "reversed(range(len(%s)))" % lines), loops[0],
+               "clean_content feeds lines to the allow-list stage bottom-up (the last line matching each filter is within the budget)",
+               construct="for %s in %s" % (U(loops[0].target), it))
+
+
 def run(cx):
     repo = cx.repo
     cx.extra["explanation"] = ("C07: effect/read-set analysis of the filter memo (every FILTERS writer must clear it), union walk and registration propagation, argv rule for the grep pre-filter, "
@@ -372,3 +389,4 @@ def run(cx):
     cx.guard(r6_gating)
     cx.guard(r7_copy_before_mutation, mods)
     cx.guard(r8_bottom_up)
+    cx.guard(r8b_cleaner_bottom_up)
